@@ -259,7 +259,16 @@ fn eval_primary_expr(
         expr::PrimaryExpr::Function(func) => eval_func_expr(func, node, context),
         expr::PrimaryExpr::Literal(literal) => Ok(literal.to_string().as_value()),
         expr::PrimaryExpr::Number(number) => Ok(number.parse::<f64>().unwrap().as_value()),
-        expr::PrimaryExpr::Variable(_) => unimplemented!("Not support `VariableReference`."),
+        expr::PrimaryExpr::Variable(name) => {
+            let name = match name {
+                nom::model::QName::Prefixed(p) => format!("{}:{}", p.prefix, p.local_part),
+                nom::model::QName::Unprefixed(u) => u.to_string(),
+            };
+            Err(error::Error::Unsupported(format!(
+                "variable reference `${}`",
+                name
+            )))
+        }
     }
 }
 
